@@ -407,6 +407,24 @@ def rule_helpers(rep: Report, repo: Repo, sections=None, nonhermitian: bool = Tr
         ok = table == {(False, False): "scipy_aslinearoperator(A)", (True, False): "A", (False, True): "A"}
         rep.check(ok, R, "linalg::aslinearoperator passes the zero / one sentinels through unchanged", str(table), repo.loc("linalg", f))
 
+    if sections is None or "is_diagonal" in sections:
+        # -- linalg.is_diagonal [dense]: EVERY off-diagonal entry is inspected ------------------------------------------------
+        fd = repo.find("linalg::is_diagonal", R)
+        dense = [s_ for s_ in fd.body if isinstance(s_, ast.If) and norm(s_.test) in ("isinstance(A, np.ndarray)",)]
+        if len(dense) != 1:
+            raise AnalysisError(R, "is_diagonal: dense branch not found")
+        txt = " ".join(norm(x_) for x_ in dense[0].body)
+        one_triangle = any(t_ in txt for t_ in ("np.triu_indices_from(", "np.tril_indices_from(", "np.triu_indices(", "np.tril_indices(", "np.triu(", "np.tril("))
+        both = ("np.triu" in txt and "np.tril" in txt)
+        if "A.reshape(-1)[:-1].reshape(len(A) - 1, len(A) + 1)[:, 1:]" in txt or "np.diag(np.diag(A))" in txt or "~np.eye(" in txt or both:
+            rep.ok(R, "linalg::is_diagonal [dense] inspects every off-diagonal entry", "", repo.loc("linalg", dense[0]))
+        elif one_triangle:
+            rep.fail(R, "linalg::is_diagonal [dense] looks at one triangle of the matrix only",
+                     "a non-Hermitian (or simply wrong) H_0 with entries in the other triangle is declared diagonal: it is then stored as a "
+                     "sparse 'diagonal' matrix and the block-diagonality rejection may never see the offending block", repo.loc("linalg", dense[0]))
+        else:
+            raise AnalysisError(R, f"is_diagonal: dense branch `{txt[:80]}` not understood")
+
     if sections is None or "apply_mask" in sections:
         # -- second_quantization.apply_mask_to_operator + NumberOrderedForm.filter_terms: keep / discard are complementary ------
         f = repo.find_expanded("second_quantization::apply_mask_to_operator", R)  # extracted helpers are seen through
